@@ -3,6 +3,7 @@ import ast
 
 from .common import *
 from .liecommon import *
+from ..decide import canon
 from ..engine import is_identity
 
 
@@ -68,7 +69,15 @@ def check_exp(w, rep, name, G, tier):
         for desc, Eb in bs:
             inst = "%s: sum_k x_k dE/dx_k = wedge(x) E  on %s%s" % (name, how, "" if desc == "-" else " [branch %s]" % ("shadow" if "T" in desc[-2:] else "principal"))
             shadow = desc != "-" and desc.endswith("T")
-            v, d = decide_by_cases(radial(Eb, x), cm.matmul(Xm, Eb))
+            v, d = EQUAL, None
+            for lab, Ec in (minmax_cases(Eb) or [("-", Eb)]):       # clamps resolved both ways (after closing: sqrt(cos^2) = |cos|)
+                Ec = MatVal(Ec.r, Ec.c, [[canon(p_) if p_.t else p_ for p_ in row] for row in Ec.cells], Ec.kind) if lab != "-" else Ec
+                v1, d1 = decide_by_cases(radial(Ec, x), cm.matmul(Xm, Ec))
+                if v1 == DIFFERENT:
+                    v, d = DIFFERENT, ("%s; %s" % (lab, d1) if lab != "-" else d1)
+                    break
+                if v1 == UNKNOWN and v == EQUAL:
+                    v, d = UNKNOWN, ("%s; %s" % (lab, d1) if lab != "-" else d1)
             if v == EQUAL:
                 rep.ok("C02.ode", inst, fact={"cells": Eb.r * Eb.c, "closed_form_terms": sum(len(p.t) for p in Eb.flat())})
             elif v == DIFFERENT:
